@@ -93,6 +93,21 @@ def load_controls(pid, tier):
     if tier == 'quick':
         q = [c for c in mine if c.get('quick')]
         mine = q if q else mine[:2]
+    else:
+        # thorough: the independently seeded changes filed under this property must be caught as well
+        sd = os.path.join(VERIF, 'seeded')
+        if os.path.isdir(sd):
+            for name in sorted(os.listdir(sd)):
+                mp = os.path.join(sd, name, 'meta.json')
+                if not os.path.exists(mp):
+                    continue
+                try:
+                    meta = json.load(open(mp))
+                except ValueError:
+                    continue
+                if meta.get('property') == pid and meta.get('check_on_repo_with_change', {}).get('exit') == 1:
+                    mine.append({'id': 'seeded/' + name, 'desc': (meta.get('summary') or '')[:160], 'patch': os.path.join('..', 'seeded', name, 'patch.diff'),
+                                 'expects': {pid: ['']}})
     return mine
 
 
